@@ -152,7 +152,7 @@ def main():
         tlc_timeout = 600
 
     # --- MC (design check + negative configs) and emission with nothing repaired, side by side -------
-    pool = cf.ThreadPoolExecutor(max_workers=12)
+    pool = cf.ThreadPoolExecutor(max_workers=20)
     mck, mcn, mcd = (ALL, 3, 3) if thorough else (CORE, 3, 3)
     f_mc = pool.submit(vlib.tlc, MODULE, "mc.cfg", files={"mc.cfg": cfg(MODULE + "_mc.cfg", mck, mcn, mcd)},
                        workers=6, timeout=tlc_timeout, xmx="8g")
@@ -169,6 +169,10 @@ def main():
                         workers=2, timeout=tlc_timeout)
     parts = {name: (4 if n >= 3 else 1) for (name, kinds, n, d) in families}
     f_gen = [emit(pool, kinds, n, d, [], tlc_timeout, parts[name]) for (name, kinds, n, d) in families]
+    # speculative: the predictions for the repairs recorded as fixed (what the detection below usually finds), derived meanwhile
+    expect = sorted(a for a in ACTIONS if any(k.get("property") == "C13" and k.get("status") == "fixed"
+                                              and k.get("signature") == "Children.%sKeepsSlot" % a for k in vlib.load_known()))
+    f_spec = [emit(pool, kinds, n, d, expect, tlc_timeout, parts[name]) for (name, kinds, n, d) in families] if expect else None
     hd = vlib.harness_dir()          # meanwhile: build the templ CLI of the tree under test
     vlib.templ_bin()
 
@@ -254,7 +258,8 @@ def main():
     ck.set("as_coded_model_vs_real", s0["classes"])
     if repaired:
         vlib.log("re-deriving Impl predictions for Repaired = %s" % repaired)
-        gens2 = [emit(pool, kinds, n, d, repaired, tlc_timeout, parts[name]) for (name, kinds, n, d) in families]
+        gens2 = f_spec if (f_spec is not None and repaired == expect) else \
+            [emit(pool, kinds, n, d, repaired, tlc_timeout, parts[name]) for (name, kinds, n, d) in families]
         by_key = {}
         for fs in gens2:
             for t in Emission([f.result() for f in fs]).trees:
